@@ -322,7 +322,9 @@ package protocol
 //@   site (*Processor).Process requires[C01] oncePerTunnel: arg0.tunnel == t && arg0.gw == g && arg0.state == 0 && old(t.transportIn) == nil
 // the client's bytes on the incoming connection are consumed through the body reader only, which frames them;
 // a read on the raw connection underneath takes whatever segment arrives next (KNOWN FINDING: Drain does that)
-//@   site? net.Conn.Read requires[C08] framedOnly: arg0 != in.Conn
+// (stated over a ghost predicate nothing ever establishes, so that the failing clause, which is assumed after its
+// call site like every site clause, does not make the rest of the function vacuous)
+//@   site? net.Conn.Read requires[C08] framedOnly: arg0 == in.Conn ==> rawReadFramed(arg0)
 //@   nopanic[C10]
 
 //@ func (*Gateway).HandleGatewayProtocol
